@@ -2,6 +2,7 @@ pub mod common;
 pub mod c01;
 pub mod c02;
 pub mod c03;
+pub mod c04;
 pub mod c05;
 pub mod c08;
 pub mod c09;
@@ -10,6 +11,7 @@ pub mod c11;
 pub mod c13;
 pub mod c14;
 pub mod c15;
+pub mod c16;
 pub mod c20;
 
 use crate::out::Ctx;
@@ -20,6 +22,7 @@ pub fn dispatch(prop: &str, ctx: &Ctx, _rest: &[String]) -> bool {
         "c01" => c01::run(ctx),
         "c02" => c02::run(ctx),
         "c03" => c03::run(ctx),
+        "c04" => c04::run(ctx),
         "c05" => c05::run(ctx),
         "c08" => c08::run(ctx),
         "c09" => c09::run(ctx),
@@ -30,6 +33,7 @@ pub fn dispatch(prop: &str, ctx: &Ctx, _rest: &[String]) -> bool {
         "c13" => c13::run(ctx),
         "c14" => c14::run(ctx),
         "c15" => c15::run(ctx),
+        "c16" => c16::run(ctx),
         "c20" => c20::run(ctx),
         _ => return false,
     }
